@@ -1178,8 +1178,11 @@ func c13GenSizes(t *rapid.T, dgram bool) []int {
 		default:
 			switch rapid.IntRange(0, 6).Draw(t, "sizeClass") {
 			case 6:
-				// more than 16 full records in one Write
+				// more than 16 full records in one Write (stream stack; the datagram stack keeps to its range)
 				sz = rapid.SampledFrom([]int{262144, 262145, 300000}).Draw(t, "size")
+				if c13Datagram {
+					sz = rapid.IntRange(17000, c13MaxWrite).Draw(t, "dsize")
+				}
 			case 0:
 				sz = rapid.IntRange(0, 64).Draw(t, "size")
 			case 1, 2:
@@ -1416,8 +1419,33 @@ func c13Nontrivial(c c13Case) bool {
 	return n[0] > 1 || n[1] > 1
 }
 
+// c13Stall: the signatures that rest on "nothing moved for c13Quiet" or "still pending c13Cap after Close".
+func c13Stall(sig string) bool {
+	return sig == "deadlock" || sig == "bytes-lost" || sig == "close-does-not-unblock"
+}
+
 func c13Check(t *rapid.T, rec *vfRecord, c c13Case) {
 	sig, msg := c13Run(c)
+	if c13Stall(sig) {
+		// A stall is judged by the wall clock. Twice, on a machine running five such campaigns at once,
+		// a case was reported as stalled that passed every one of 80 re-runs; so a stall is reported when
+		// the same case stalls again in one of three immediate re-runs (a blocking defect does: the
+		// seeded ones stall every time or every few times), and is counted as unconfirmed otherwise.
+		confirmed := false
+		for i := 0; i < 3 && !confirmed; i++ {
+			if s2, m2 := c13Run(c); c13Stall(s2) {
+				confirmed = true
+				msg = msg + "\n-- stalled again in re-run " + fmt.Sprint(i+1) + ": " + s2 + ": " + m2
+			} else if s2 != "" {
+				sig, msg, confirmed = s2, m2, true // the re-run found something else: report that
+			}
+		}
+		if !confirmed {
+			rec.Excluded("unconfirmed-stall")
+			fmt.Fprintf(os.Stderr, "NOTE stall not confirmed by three re-runs: %s: %.400s\n", sig, msg)
+			sig = ""
+		}
+	}
 	if sig != "" {
 		// a schedule-dependent failure: report the case together with what was seen
 		rec.Fail(t, sig, c, "%s", msg)
